@@ -99,6 +99,7 @@ type WorkerSummary struct {
 	Ops           int              `json:"ops"`
 	Steps         int              `json:"steps"`
 	Switches      int              `json:"switches"`
+	MapAcc        int              `json:"map_accesses"`
 	SimTimeNs     int64            `json:"sim_time_ns"`
 	Faults        map[string]int   `json:"faults"`
 	Probes        map[string]int   `json:"probes"`
@@ -271,6 +272,7 @@ func cmdWorker(args []string) int {
 		sum.Ops += out.Stats.Ops
 		sum.Steps += out.Stats.Steps
 		sum.Switches += out.Stats.Switches
+		sum.MapAcc += out.Stats.MapAcc
 		sum.SimTimeNs += int64(out.Stats.SimTime)
 		for k, v := range out.Stats.Faults {
 			sum.Faults[k] += v
@@ -746,6 +748,7 @@ func cmdCheck(args []string) int {
 		agg.Ops += s.Ops
 		agg.Steps += s.Steps
 		agg.Switches += s.Switches
+		agg.MapAcc += s.MapAcc
 		agg.SimTimeNs += s.SimTimeNs
 		agg.Nontrivial += s.Nontrivial
 		agg.Infra += s.Infra
@@ -855,6 +858,7 @@ func cmdCheck(args []string) int {
 		"operations":          agg.Ops,
 		"scheduling_steps":    agg.Steps,
 		"context_switches":    agg.Switches,
+		"map_accesses_checked_for_happens_before":     agg.MapAcc,
 		"distinct_interleavings_by_switch_trace_hash": len(traces),
 		"distinct_switch_site_pairs":                  len(pairs),
 		"simulated_time_s":                            float64(agg.SimTimeNs) / 1e9,
